@@ -679,7 +679,7 @@ protected:
 				if (v > static_cast<unsigned long long>(static_cast<long long>(maxpos))) { return maxpos; }
 			}
 			constexpr uint64_t mask = 0x1;
-			unsigned upper = (nbits - rbits) <= 64 ? nbits : 64;
+			unsigned upper = (nbits - rbits) <= 64 ? nbits : (rbits + 64);
 			for (unsigned i = 0; i < upper - rbits && v > 0; ++i) {
 				if (v & mask) f.setbit(i + rbits); // we have no fractional part in v
 				v >>= 1;
